@@ -25,7 +25,8 @@ class Scenario:
 
     def __init__(self, source, signals=(), mode="run", layout=None, default_answer=None, answers=None,
                  fail_at=(), layout_at=None, override_write=True, max_rows=2000, show_vars=False, echo=False,
-                 load=None, repeat_parse=1, render=False, stop_on_err=True, note="", expect=None):
+                 load=None, repeat_parse=1, render=False, stop_on_err=True, note="", expect=None, abandon=None):
+        self.abandon = abandon
         self.expect = expect or {}
         self.source = source
         self.signals = list(signals)   # (kind, name, bits, default) kind in in/out/bidir; default int|'Z'|None
@@ -72,6 +73,8 @@ class Scenario:
         out.append("RENDER %d" % (1 if self.render else 0))
         if self.load is not None:
             out.append("LOAD %s" % self.load)
+        if getattr(self, "abandon", None) is not None:
+            out.append("ABANDON %d" % self.abandon)
         return "\n".join(out) + "\n"
 
     def to_json(self):
@@ -79,7 +82,7 @@ class Scenario:
                 "default_answer": self.default_answer, "answers": {str(k): v for k, v in self.answers.items()},
                 "fail_at": self.fail_at, "layout_at": {str(k): v for k, v in self.layout_at.items()},
                 "override_write": self.override_write, "note": self.note, "echo": self.echo,
-                "load": self.load, "repeat_parse": self.repeat_parse, "expect": self.expect,
+                "load": self.load, "repeat_parse": self.repeat_parse, "expect": self.expect, "abandon": getattr(self, "abandon", None),
                 "scenario_text": self.text()}
 
 
